@@ -134,9 +134,10 @@ class Struct:
 class SymEnum:
     """an enum value whose discriminant is a solver term (payload-free use only: fields read as opaque)"""
 
-    def __init__(self, ty, tag):
+    def __init__(self, ty, tag, fields=None):
         self.ty = ty
         self.tag = tag
+        self.fields = fields or {}      # payload field index -> value (shared by the variants that have that field)
 
     def __repr__(self):
         return f'SymEnum({self.ty},{self.tag})'
@@ -385,6 +386,9 @@ class Exec:
         mm = re.fullmatch(r'(\(.+\))\[(_\d+)\]', s)
         if mm:
             return ('index', self.parse_place(mm.group(1)), mm.group(2))
+        mm = re.fullmatch(r'(\(.+\))\[(\d+) of (\d+)\]', s)
+        if mm:
+            return ('cindex', self.parse_place(mm.group(1)), int(mm.group(2)))
         raise Unsupported(f'place syntax: {s}')
 
     def mk_int(self, v, ty):
@@ -419,6 +423,9 @@ class Exec:
             else:
                 v = z3.FPVal(float(t), F)
             return v, 'f64'
+        mm = re.fullmatch(r'\{transmute\(0x0+\): (?:std::option::|core::option::)?Option<(?:&|std::boxed::Box<|Box<|NonNull<).*\}', s)
+        if mm:      # the null niche of an Option of a non-null pointer is None
+            return Enum('None', [], 'Option'), None
         mm = re.fullmatch(r'[\w:]+\((-?\d+_[iu]\w+)\)', s)      # newtype constant e.g. InlineInt(0_i32)
         if mm:
             return self.const(mm.group(1))
@@ -460,7 +467,7 @@ class Exec:
             if isinstance(b, Opaque):
                 return b
             if isinstance(b, SymEnum):
-                return Opaque('payload of symbolic enum')
+                return b.fields.get(place[2], Opaque('payload of symbolic enum'))
             if isinstance(b, Slice):      # Box<[T]>.0 / Unique.pointer / NonNull.pointer projections: identity
                 return b
             if isinstance(b, (Struct, Enum)):
@@ -504,10 +511,16 @@ class Exec:
                 if p == 0:
                     continue
                 return Opaque('field of scalar')
+            if isinstance(p, tuple):      # ('elem', i): element of a slice with known contents
+                if isinstance(v, Slice) and v.elems is not None and p[1] < len(v.elems):
+                    v = v.elems[p[1]]
+                    continue
+                return Opaque('element of opaque slice')
             if isinstance(v, Slice):
                 continue
             if isinstance(v, SymEnum):
-                return Opaque('payload of symbolic enum')
+                v = v.fields.get(p, Opaque('payload of symbolic enum'))
+                continue
             v = v.fields[p] if p < len(v.fields) else Opaque('oob')
         return v
 
@@ -527,6 +540,15 @@ class Exec:
                 return val
             if node is None or isinstance(node, Opaque):
                 node = Struct([])
+            if isinstance(path[0], tuple):
+                if not (isinstance(node, Slice) and node.elems is not None and path[0][1] < len(node.elems)):
+                    raise Unsupported(f'write to element {path[0]} of {node}')
+                n2 = copy.copy(node)
+                n2.elems = list(node.elems)
+                n2.elems[path[0][1]] = upd(n2.elems[path[0][1]], path[1:])
+                return n2
+            if isinstance(node, Slice):      # Box<[T]>.0 / Unique.pointer projections: identity
+                return upd(node, path[1:])
             if z3.is_expr(node) or isinstance(node, Big):
                 if path[0] != 0:
                     raise Unsupported('write field>0 of scalar')
@@ -573,7 +595,10 @@ class Exec:
             self.write(st, place[1], val)
             return
         if k in ('index', 'cindex'):
-            return          # indexed write into a slice: contents stay opaque
+            r = self.make_ref(st, place)
+            if isinstance(r, Ref):
+                self.write_ref(st, r, val)
+            return          # otherwise: indexed write into a slice whose contents stay opaque
         raise Unsupported(place)
 
     def operand(self, st, s, fn):
@@ -762,7 +787,20 @@ class Exec:
                     return r
                 return Opaque('ref through non-ref')
             if cur[0] in ('index', 'cindex'):
-                return Opaque('ref to slice element')
+                if cur[0] == 'cindex':
+                    i = cur[2]
+                else:
+                    idx = self.read(st, ('local', cur[2]))
+                    idx = z3.simplify(idx) if z3.is_expr(idx) else idx
+                    i = idx.as_long() if z3.is_expr(idx) and (z3.is_int_value(idx) or z3.is_bv_value(idx)) else None
+                base = cur[1]
+                holder = self.read(st, base[1]) if base[0] == 'deref' else None
+                if i is None or not isinstance(holder, Ref):
+                    return Opaque('ref to slice element')
+                tgt = self.read_ref(st['mem'], holder)
+                if not (isinstance(tgt, Slice) and tgt.elems is not None and i < len(tgt.elems)):
+                    return Opaque('ref to slice element')
+                return Ref(holder.addr, holder.path + (('elem', i),) + tuple(reversed(path)))
             raise Unsupported(f'make_ref {cur}')
 
     def ordering_of(self, lt, eq):
